@@ -147,6 +147,14 @@ def auto_discharge(prog, s):
         ba, bb = _upper_bound(prog, f, s["ops"][0]), _upper_bound(prog, f, s["ops"][1])
         if ba is not None and bb is not None and max(ba, bb) <= 1 << 20:
             return "both operands have small static upper bounds (%d, %d): constants, char::len_utf8 (<= 4), count() after take(k)" % (ba, bb)
+    if k == "assert:overflow_Add" and len(s["ops"]) == 2:
+        for a, b in ((s["ops"][0], s["ops"][1]), (s["ops"][1], s["ops"][0])):
+            kb = _upper_bound(prog, f, b)
+            if kb is not None and kb <= 1 << 20 and a[0] != "k":
+                os_ = f.trace_operand(a)
+                if os_ and all(o.kind == "call" and (o.ref.name in ("len", "count", "position", "rposition", "capacity") or
+                                                     (o.ref.name == "next" and re.search(r"bit_set::Iter|iter::adapters::enumerate::Enumerate", o.ref.best))) for o in os_):
+                    return "index/size of an in-memory collection (%s) plus a constant <= %d: bounded by the address space" % (sorted({o.ref.name for o in os_}), kb)
     if k == "assert:overflow_Sub" and len(s["ops"]) == 2:
         g = _dominating_le(f, s["bb"], s["ops"][1], s["ops"][0])
         if g:
@@ -365,6 +373,42 @@ def _moved_row(table, s, live_keys, used):
     return loose
 
 
+def _kind_class(kind):
+    if re.search(r"call:(<alloc::string::String as core::ops::index::Index<I>>|core::str::traits::<impl core::ops::index::Index<I> for str>)::index$", kind):
+        return "call:text-index"
+    if re.search(r"call:(<alloc::vec::Vec<T, A> as core::ops::index::Index<I>>|core::slice::index::<impl core::ops::index::Index<I> for \[T\]>)::index$", kind):
+        return "call:slice-index"
+    return kind
+
+
+def _reshaped_row(table, s, live_keys, used):
+    """the function was reshaped (locals renamed, an expression split or merged, a loop turned into a fold, `a[0..n]` written `a[..n]`):
+    the site keeps its function and its kind, and every operand that is not a running value (loop-carried accumulator, unnamed local)
+    keeps its provenance.  Adopt a reviewed row of the SAME function and kind class whose own site no longer exists; each row serves one
+    site.  An operand that changes its provenance (a call result replaced by a constant, a collection built by another constructor) is
+    NOT adopted: the reviewed argument spoke about the old operand."""
+    fid, kind, desc = s["key"].split(" | ", 2)
+
+    def norm(d):
+        d = re.sub(r"aggregate core::ops::range::\w+", "aggregate range", _norm_desc(d))
+        return [x.strip() for x in d.split(" , ")]
+
+    def compatible(a, b):
+        return len(a) == len(b) and all(x == y or x == "*" or y == "*" for x, y in zip(a, b))
+
+    nd = norm(desc)
+    for k in table:
+        if k in live_keys or k in used:
+            continue
+        parts = k.split(" | ", 2)
+        if len(parts) != 3 or parts[0] != fid or _kind_class(parts[1]) != _kind_class(kind):
+            continue
+        od = norm(parts[2])
+        if compatible(od, nd) or (re.search(r"overflow_(Add|Mul)$", kind) and compatible(od, nd[::-1])):
+            return k
+    return None
+
+
 def load_table():
     if not os.path.exists(TABLE):
         return {}
@@ -407,6 +451,8 @@ def run(ctx):
             alt = _relocated_row(table, s, live_keys)
             if alt is None or alt in used:
                 alt = _moved_row(table, s, live_keys, used)
+            if alt is None or alt in used:
+                alt = _reshaped_row(table, s, live_keys, used)
             if alt is not None:
                 row = table[alt]
                 used.add(alt)
